@@ -21,7 +21,7 @@ impl fmt::Display for FullDate {
     fn fmt(&self, f: &mut fmt::Formatter) -> fmt::Result {
         write!(
             f,
-            "{}-{:0>2}-{:0>2}",
+            "{:04}-{:0>2}-{:0>2}",
             self.0.year(),
             <u8>::from(self.0.month()),
             self.0.day()
